@@ -2,18 +2,182 @@
   C19 — tree navigation API agrees with a set-based model of the tree.
 -/
 import TT.Spec.Nav
+import TT.Lemmas.Sort
+import TT.Lemmas.Nav
 namespace TT.Props.C19
-open TT TT.Tree TT.Spec
+open TT TT.Tree TT.Spec TT.Lemmas.Nav
 
-/-- `insertBy`/`sortBy` keep the elements (first brick; the full list is in tools/agent_briefs/C19.md) -/
-theorem sortBy_length {α} (key : α → Nat) (l : List α) : (sortBy key l).length = l.length := by
-  induction l with
-  | nil => rfl
-  | cons x xs ih =>
-    have h : ∀ (ys : List α), (insertBy key x ys).length = ys.length + 1 := by
-      intro ys; induction ys with
-      | nil => rfl
-      | cons y ys ih2 => simp only [insertBy]; split <;> simp [ih2]
-    simp [sortBy, h, ih]
+/-- a discontinuous example tree: `(S (VP (A 1) (B 3)) (C 2))` with the children of `S` stored
+    in reverse order of their leftmost token -/
+def exT : Tree :=
+  node {} [leaf 2 {}, node {} [leaf 3 {}, leaf 1 {}]]
+
+example : WF exT = true := by decide
+
+/-! ## T1 children / terminals -/
+
+theorem children_perm (t : Tree) : (children t).Perm t.kids := sortBy_perm leftmost t.kids
+
+theorem children_sorted (t : Tree) : (children t).Pairwise (fun a b => leftmost a ≤ leftmost b) :=
+  sortBy_sorted leftmost t.kids
+
+theorem children_storage_independent (f : Fields) (ks ks' : List Tree) (h : ks.Perm ks')
+    (hd : (ks.map leftmost).Nodup) : children (node f ks) = children (node f ks') :=
+  sortBy_perm_eq leftmost ks ks' h hd
+
+example : (exT.kids.map leftmost).Nodup := by decide
+example : (children exT).map leftmost = [1, 2] := by decide
+
+theorem terminals_sorted (t : Tree) : (yield t).Pairwise (· ≤ ·) ∧ (yield t).Perm t.leafNums :=
+  ⟨List.pairwise_map.2 (sortBy_sorted num t.leaves), (sortBy_perm num t.leaves).map num⟩
+
+theorem yield_of_WF (t : Tree) (h : WF t = true) : yield t = List.range' 1 t.leafNums.length := by
+  simp only [WF, Bool.and_eq_true, beq_iff_eq] at h
+  rw [yield_eq]; exact h.1.2
+
+example : yield exT = [1, 2, 3] := by decide
+
+/-! ## T2 traversals -/
+
+theorem preorder_unfold (f : Fields) (ks : List Tree) :
+    preorder (node f ks) = node f ks :: (children (node f ks)).flatMap preorder :=
+  Lemmas.Nav.preorder_unfold f ks
+
+theorem postorder_unfold (f : Fields) (ks : List Tree) :
+    postorder (node f ks) = (children (node f ks)).flatMap postorder ++ [node f ks] :=
+  Lemmas.Nav.postorder_unfold f ks
+
+theorem preorder_perm_subtrees (t : Tree) : (preorder t).Perm (subtrees t) :=
+  Lemmas.Nav.preorder_perm_subtrees t
+
+theorem postorder_perm_subtrees (t : Tree) : (postorder t).Perm (subtrees t) :=
+  Lemmas.Nav.postorder_perm_subtrees t
+
+theorem paths_nodup (t : Tree) : (paths t).Nodup := Lemmas.Nav.paths_nodup t
+
+theorem preorderP_perm_paths (t : Tree) : (preorderP t).Perm (paths t) :=
+  Lemmas.Nav.preorderP_perm_paths t
+
+theorem postorderP_perm_paths (t : Tree) : (postorderP t).Perm (paths t) :=
+  Lemmas.Nav.postorderP_perm_paths t
+
+theorem preorderP_ancestor_first (t : Tree) (p q : Path) (hq : q ∈ preorderP t)
+    (hpq : properPrefix p q = true) : (preorderP t).idxOf p < (preorderP t).idxOf q :=
+  idxOf_lt_of_sublist p q _ (preorderP_nodup t) (preorderP_sublist t p q hq hpq)
+
+theorem postorderP_ancestor_last (t : Tree) (p q : Path) (hq : q ∈ postorderP t)
+    (hpq : properPrefix p q = true) : (postorderP t).idxOf q < (postorderP t).idxOf p :=
+  idxOf_lt_of_sublist q p _ (postorderP_nodup t) (postorderP_sublist t p q hq hpq)
+
+example : preorderP exT = [[], [1], [1, 1], [1, 0], [0]] := by decide
+example : postorderP exT = [[1, 1], [1, 0], [1], [0], []] := by decide
+example : [1, 0] ∈ preorderP exT ∧ properPrefix [1] [1, 0] = true := by decide
+
+/-! ## T4 dominance -/
+
+theorem dominance_shape (p : Path) :
+    (dominancePaths p).head? = some p ∧ (dominancePaths p).getLast? = some [] ∧
+    (dominancePaths p).length = p.length + 1 ∧
+    ∀ i, i + 1 < (dominancePaths p).length → (dominancePaths p)[i + 1]? = ((dominancePaths p)[i]?).map List.dropLast := by
+  refine ⟨?_, ?_, dominancePaths_length p, ?_⟩
+  · rw [List.head?_eq_getElem?, dominancePaths_getElem? p 0 (Nat.zero_le _)]; simp
+  · rw [List.getLast?_eq_getElem?, dominancePaths_length,
+      dominancePaths_getElem? p _ (by omega)]
+    simp
+  · intro i hi
+    rw [dominancePaths_length] at hi
+    rw [dominancePaths_getElem? p (i + 1) (by omega), dominancePaths_getElem? p i (by omega)]
+    simp only [Option.map_some, Option.some.injEq]
+    rw [List.dropLast_eq_take, List.take_take, List.length_take]
+    congr 1
+    omega
+
+example : dominancePaths [1, 0] = [[1, 0], [1], []] := by decide
+
+/-! ## T5 lca -/
+
+theorem lca_none_iff (p q : Path) : lca p q = none ↔ (isPrefix p q = true ∨ isPrefix q p = true) := by
+  simp only [lca, Bool.or_eq_true, decide_eq_true_eq, commonPrefix_length_left,
+    commonPrefix_length_right]
+  split <;> simp_all
+
+theorem lca_spec (p q : Path) : lcaOK p q (lca p q) = true := by
+  unfold lcaOK
+  by_cases h : isPrefix p q = true ∨ isPrefix q p = true
+  · have hn := (lca_none_iff p q).2 h
+    have : (isPrefix p q || isPrefix q p) = true := by simpa using h
+    simp [this, hn]
+  · have h1 : isPrefix p q = false := by
+      cases hh : isPrefix p q <;> simp_all
+    have h2 : isPrefix q p = false := by
+      cases hh : isPrefix q p <;> simp_all
+    have hl1 : ¬ (commonPrefix p q).length = p.length := by
+      rw [commonPrefix_length_left]; simp [h1]
+    have hl2 : ¬ (commonPrefix p q).length = q.length := by
+      rw [commonPrefix_length_right]; simp [h2]
+    have hs : lca p q = some (commonPrefix p q) := by simp [lca, hl1, hl2]
+    simp only [h1, h2, Bool.or_self, Bool.false_eq_true, if_false, hs,
+      isPrefix_commonPrefix_left, isPrefix_commonPrefix_right, Bool.true_and]
+    simpa using commonPrefix_next_ne p q h1 h2
+
+example : lca [1, 0] [1, 1, 2] = some [1] := by decide
+example : lca [1] [1, 1, 2] = none := by decide
+
+/-! ## T6 levels -/
+
+theorem height_longest (t : Tree) (h : t.noEmpty = true) : height t = longestDown t := by
+  simp [longestDown, maxNat_depthsAux t 0 h]
+
+example : exT.noEmpty = true ∧ height exT = 2 := by decide
+
+/-! ## T3 siblings -/
+
+theorem orderedIdx_perm (ks : List Tree) : (orderedIdx ks).Perm (List.range ks.length) :=
+  Lemmas.Nav.orderedIdx_perm ks
+
+theorem siblings_inverse (t : Tree) (p q : Path) (h : rightSibling t p = some q) : leftSibling t q = some p := by
+  unfold rightSibling at h
+  cases hl : p.getLast? with
+  | none => simp [hl] at h
+  | some i =>
+    simp only [hl] at h
+    cases hg : t.get? p.dropLast with
+    | none => simp [hg] at h
+    | some par =>
+      simp only [hg] at h
+      cases hk : (orderedIdx par.kids).idxOf? i with
+      | none => simp [hk] at h
+      | some k =>
+        simp only [hk, Option.map_eq_some_iff] at h
+        obtain ⟨j, hj, rfl⟩ := h
+        unfold leftSibling
+        simp only [List.getLast?_concat, List.dropLast_concat, hg,
+          idxOf?_getElem_of_nodup (orderedIdx_nodup _) hj, getElem?_of_idxOf? hk, Option.map_some,
+          dropLast_append_of_getLast? hl]
+
+theorem siblings_inverse' (t : Tree) (p q : Path) (h : leftSibling t p = some q) : rightSibling t q = some p := by
+  unfold leftSibling at h
+  cases hl : p.getLast? with
+  | none => simp [hl] at h
+  | some i =>
+    simp only [hl] at h
+    cases hg : t.get? p.dropLast with
+    | none => simp [hg] at h
+    | some par =>
+      simp only [hg] at h
+      cases hk : (orderedIdx par.kids).idxOf? i with
+      | none => simp [hk] at h
+      | some k =>
+        cases k with
+        | zero => simp [hk] at h
+        | succ k =>
+          simp only [hk, Option.map_eq_some_iff] at h
+          obtain ⟨j, hj, rfl⟩ := h
+          unfold rightSibling
+          simp only [List.getLast?_concat, List.dropLast_concat, hg,
+            idxOf?_getElem_of_nodup (orderedIdx_nodup _) hj, getElem?_of_idxOf? hk, Option.map_some,
+            dropLast_append_of_getLast? hl]
+
+example : rightSibling exT [1] = some [0] ∧ leftSibling exT [0] = some [1] := by decide
 
 end TT.Props.C19
